@@ -170,6 +170,9 @@ def templates(tier, seed):
     T.append(("rewrite:two_ec", "set Q0 0\nset Q1 1\ncnot Q0 Q1\nset Q1 0\nset Q0 2\ncnot Q1 Q0\n"))
     T.append(("rewrite:two_cphase", "set Q0 1\nset Q1 0\ncphase Q0 Q1\nset Q1 2\nset Q0 0\ncphase Q1 Q0\nh Q0\n"))
     T.append(("rewrite:two_cc", "set Q1 1\nset Q2 2\ncnot Q1 Q2\nset Q0 1\nset Q1 2\ncnot Q1 Q0\n"))
+    # a register that was set before a carbon-carbon gate but is first USED after it (it must not be taken as the scratch register)
+    T.append(("rewrite:set_unused", "set Q0 1\nset Q1 1\nset Q2 2\ncnot Q1 Q2\nx Q0\n"))
+    T.append(("rewrite:set_unused2", "set Q2 2\nset Q0 2\nset Q1 1\ncphase Q0 Q1\nh Q2\n"))
     T.append(("rewrite:scratch", "set Q0 1\nset Q1 2\ncnot Q0 Q1\nset Q2 0\nh Q2\ncphase Q1 Q0\nx Q2\n"))
     T.append(("rewrite:two_cc", "set Q1 1\nset Q2 2\ncnot Q1 Q2\nset Q0 2\nx Q0\ncphase Q2 Q1\ny Q0\n"))
     # the same `set` inside a block that may be skipped and right after it; a loop body that starts with the pre-loop value and
